@@ -18,8 +18,13 @@ P2 == {[t |-> "app", c |-> c, e |-> p] : c \in C1, p \in P0}
    \cup {[t |-> "app", c |-> c, e |-> p] : c \in C0, p \in P1}
    \cup {[t |-> "bin", op |-> o, l |-> l, r |-> r] : o \in {"sub", "div", "lt", "ge"}, l \in {[t |-> "app", c |-> c, e |-> p] : c \in C0, p \in P0}, r \in P0 \cup S0}
    \cup {[t |-> "bin", op |-> o, l |-> l, r |-> r] : o \in {"sub", "div", "gt", "le"}, l \in S0, r \in {[t |-> "app", c |-> c, e |-> p] : c \in C0, p \in P0}}
+(* arithmetic on the result of a COMPARISON (a truth-valued image counts as 0 / 1, as it does voxel-wise in numpy): masks are combined
+   this way (1 - (a == b), 2 * (a < b), (a >= b) - 3) *)
+Cmps == {[t |-> "bin", op |-> o, l |-> [t |-> "prov", id |-> "a"], r |-> r] : o \in {"eq", "lt", "ge"}, r \in {[t |-> "prov", id |-> "b"], [t |-> "sc", v |-> 2]}}
+P3 == {[t |-> "bin", op |-> o, l |-> l, r |-> r] : o \in {"add", "sub", "mul"}, l \in S0, r \in Cmps}
+  \cup {[t |-> "bin", op |-> o, l |-> l, r |-> r] : o \in {"add", "sub", "mul"}, l \in Cmps, r \in S0 \cup P0}
 Assoc == {[f |-> f, g |-> g, h |-> h, p |-> p] : f \in C0, g \in C0, h \in C0, p \in P0}
-Progs == [kind : {"prog"}, e : P1 \cup P2, s2 : {1, 2, 4}]
+Progs == [kind : {"prog"}, e : P1 \cup P2 \cup P3, s2 : {1, 2, 4}]
 Init == cfg \in Progs \cup [kind : {"assoc"}, e : Assoc, s2 : {1, 4}] /\ done = FALSE
 Next == ~done /\ done' = TRUE /\ UNCHANGED cfg
 Spec == Init /\ [][Next]_<<cfg, done>>
